@@ -162,7 +162,8 @@ Record handle := mkH {
   h_pending : bool;                 (* _file_creation_pending                                   *)
   h_msig : option Z;                (* field sets of the prototype item of an in-memory store    *)
   h_cap : option nat;               (* file-backed stores: capacity of the LRU cache (None: never reached) *)
-  h_used : nat                      (* in-memory store: sum of the sizes of the trajectories held *)
+  h_used : nat;                     (* in-memory store: sum of the sizes of the trajectories held *)
+  h_iters : list (nat * nat)        (* live iterators of this store: (iterator, cursor) — each has its OWN cursor *)
 }.
 
 Record world := mkW { w_fs : fsys; w_h : option handle }.
@@ -188,7 +189,10 @@ Inductive op :=
      cumulative size table.  (Merged directories cannot change while a handle is open, so the tables the real
      handle computed when it was opened are the ones recomputed here.) *)
   | Inject (p : path) (vals : list Z)
-  | GetA (i : nat) (assocs : list path).
+  | GetA (i : nat) (assocs : list path)
+  (* iterators: iter(store) creates (or restarts) iterator k with its own cursor; next(it) advances only that one *)
+  | IterNew (k : nat)
+  | IterNext (k : nat).
 
 Inductive err :=
   | ENoHandle | EBusy | EExists | EMissing | ENotWritable | EIndex | EFull | ETooLarge
@@ -205,7 +209,8 @@ Inductive out :=
   | OLen (n : nat)
   | ONone
   | OErr (e : err)
-  | OItemA (t : Z) (vs : list Z).
+  | OItemA (t : Z) (vs : list Z)
+  | OStop.                           (* StopIteration *)
 
 (* the property does not say WHICH error a rejected trajectory / refused merge is reported with *)
 Definition coarse (o : out) : out :=
@@ -222,9 +227,9 @@ Definition evict (keep : list nat) (c : list (nat * item)) : list (nat * item) :
   filter (fun e => existsb (Nat.eqb (fst e)) keep) c.
 
 Definition set_cache (h : handle) (c : list (nat * item)) : handle :=
-  mkH (h_src h) (h_mode h) (h_next h) c (h_mem h) (h_snap h) (h_indexable h) (h_stale h) (h_pending h) (h_msig h) (h_cap h) (h_used h).
+  mkH (h_src h) (h_mode h) (h_next h) c (h_mem h) (h_snap h) (h_indexable h) (h_stale h) (h_pending h) (h_msig h) (h_cap h) (h_used h) (h_iters h).
 Definition set_stale (h : handle) (b : bool) : handle :=
-  mkH (h_src h) (h_mode h) (h_next h) (h_cache h) (h_mem h) (h_snap h) (h_indexable h) b (h_pending h) (h_msig h) (h_cap h) (h_used h).
+  mkH (h_src h) (h_mode h) (h_next h) (h_cache h) (h_mem h) (h_snap h) (h_indexable h) b (h_pending h) (h_msig h) (h_cap h) (h_used h) (h_iters h).
 
 (* the member files of a merged directory, in the order listed by metadata.json *)
 Fixpoint listed_members (d : mdir) (stores : list (nat * nat)) : option (list ncfile) :=
@@ -357,22 +362,26 @@ Definition insert (fs : fsys) (h : handle) (t : traj) (ok : bool) : fsys * handl
   | SrcMem cap =>
       (fs, mkH (h_src h) (h_mode h) (S idx) (h_cache h) (h_mem h ++ [mkItem (t_tag t) (t_fid t) ok])
                (h_snap h) (Some ix) stale (h_pending h)
-               (match h_msig h with Some s => Some s | None => Some (t_sig t) end) (h_cap h) (h_used h + t_size t))
+               (match h_msig h with Some s => Some s | None => Some (t_sig t) end) (h_cap h) (h_used h + t_size t) (h_iters h))
   | SrcFile p =>
       let f0 := if h_pending h then mkNc [] (t_sig t) ix []
                 else match flookup p fs with Some (NFile f) => f | _ => mkNc [] (t_sig t) ix [] end in
       let f1 := mkNc (f_items f0 ++ [item_of t ok]) (f_sig f0) (f_hasidx f0) (f_table f0) in
       (fupd p (NFile f1) fs,
        mkH (h_src h) (h_mode h) (S idx) ((idx, mkItem (t_tag t) (t_fid t) ok) :: h_cache h) (h_mem h)
-           (h_snap h) (Some ix) stale false (h_msig h) (h_cap h) (h_used h))
+           (h_snap h) (Some ix) stale false (h_msig h) (h_cap h) (h_used h) (h_iters h))
   | SrcMerged _ => (fs, h)
   end.
 
 Definition set_indexable (h : handle) (b : option bool) : handle :=
-  mkH (h_src h) (h_mode h) (h_next h) (h_cache h) (h_mem h) (h_snap h) b (h_stale h) (h_pending h) (h_msig h) (h_cap h) (h_used h).
+  mkH (h_src h) (h_mode h) (h_next h) (h_cache h) (h_mem h) (h_snap h) b (h_stale h) (h_pending h) (h_msig h) (h_cap h) (h_used h) (h_iters h).
 
 Definition cache_cap (h : handle) : option nat :=
   match h_src h with SrcMem cap => Some cap | _ => h_cap h end.
+
+Definition set_iters (h : handle) (its : list (nat * nat)) : handle :=
+  mkH (h_src h) (h_mode h) (h_next h) (h_cache h) (h_mem h) (h_snap h) (h_indexable h) (h_stale h) (h_pending h) (h_msig h)
+      (h_cap h) (h_used h) its.
 
 Definition add (c : cfg) (fs : fsys) (h : handle) (t : traj) : fsys * handle * out :=
   match h_mode h with
@@ -485,7 +494,7 @@ Definition open_file (c : cfg) (p : path) (f : ncfile) (m : mode) (cap : option 
       [] []
       (if fix_F5 c then None else Some [length (f_items f)])
       (if f_hasidx f then Some true else if fix_C08a c then Some false else None)
-      false false None cap 0.
+      false false None cap 0 [].
 
 Definition open_merged (fs : fsys) (p : path) (d : mdir) (cap : option nat) : handle + err :=
   match pext p with
@@ -506,7 +515,7 @@ Definition open_merged (fs : fsys) (p : path) (d : mdir) (cap : option nat) : ha
                     inl (mkH (SrcMerged p) MRead 0 [] []
                              (Some (cum (map (fun f => length (f_items f)) l)))
                              (match ix with IxFull _ => Some true | _ => None end)
-                             false false None cap 0)
+                             false false None cap 0 [])
                 end
             end
           end
@@ -696,9 +705,9 @@ Definition assoc_sig : Z := 2.
 (* the step function of the world                                                              *)
 (* ------------------------------------------------------------------------------------------- *)
 Definition new_file_handle (p : path) (cap : option nat) : handle :=
-  mkH (SrcFile p) MCreate 0 [] [] None None false true None cap 0.
+  mkH (SrcFile p) MCreate 0 [] [] None None false true None cap 0 [].
 Definition new_mem_handle (cap : nat) : handle :=
-  mkH (SrcMem cap) MCreate 0 [] [] None None false false None None 0.
+  mkH (SrcMem cap) MCreate 0 [] [] None None false false None None 0 [].
 
 Definition step (c : cfg) (w : world) (o : op) : world * out :=
   let fs := w_fs w in
@@ -733,6 +742,19 @@ Definition step (c : cfg) (w : world) (o : op) : world * out :=
       end
   | (Create _ _ | CreateMem _ | OpenR _ _ | OpenA _ _ | Merge _ _ _ | Inject _ _), Some _ => (w, OErr EBusy)
   | _, None => (w, OErr ENoHandle)
+  | IterNew k, Some h => (mkW fs (Some (set_iters h (@aupd nat nat Nat.eqb k 0 (h_iters h)))), OUnit)
+  | IterNext k, Some h =>
+      match @alookup nat nat Nat.eqb k (h_iters h) with
+      | None => (w, OErr ENoHandle)
+      | Some cur =>
+          if cur <? store_len fs h then
+            let '(h1, r) := get_item fs h cur in
+            match r with
+            | inl t => (mkW fs (Some (set_iters h1 (@aupd nat nat Nat.eqb k (S cur) (h_iters h1)))), OItem t)
+            | inr e => (mkW fs (Some h1), OErr e)
+            end
+          else (w, OStop)
+      end
   | GetA i ps, Some h =>
       let '(h1, r) := get_item fs h i in
       (mkW fs (Some h1),
@@ -778,7 +800,7 @@ Definition empty_world := mkW [] None.
 Definition sitem := (Z * option Z)%type.                    (* payload tag, flight id *)
 Record sstore := mkS { ss_items : list sitem; ss_sig : Z; ss_ident : bool }.
 Inductive sloc := SLMem (items : list sitem) (cap : nat) (def : option (Z * bool)) (used : nat) | SLFile (p : path).
-Record shandle := mkSH { sh_loc : sloc; sh_mode : mode; sh_cap : option nat }.
+Record shandle := mkSH { sh_loc : sloc; sh_mode : mode; sh_cap : option nat; sh_iters : list (nat * nat) }.
 Record sworld := mkSW { s_fs : list (path * sstore); s_h : option shandle }.
 
 Definition slookup := @alookup path sstore path_eqb.
@@ -817,24 +839,38 @@ Definition spec_step (s : sworld) (o : op) : sworld * out :=
   | Create p cap, None =>
       match slookup p (s_fs s) with
       | Some _ => (s, OErr EExists)
-      | None => (mkSW (s_fs s) (Some (mkSH (SLFile p) MCreate cap)), OUnit)
+      | None => (mkSW (s_fs s) (Some (mkSH (SLFile p) MCreate cap [])), OUnit)
       end
-  | CreateMem cap, None => (mkSW (s_fs s) (Some (mkSH (SLMem [] cap None 0) MCreate None)), OUnit)
+  | CreateMem cap, None => (mkSW (s_fs s) (Some (mkSH (SLMem [] cap None 0) MCreate None [])), OUnit)
   | OpenR p cap, None =>
       match slookup p (s_fs s) with
       | None => (s, OErr EMissing)
-      | Some _ => (mkSW (s_fs s) (Some (mkSH (SLFile p) MRead cap)), OUnit)
+      | Some _ => (mkSW (s_fs s) (Some (mkSH (SLFile p) MRead cap [])), OUnit)
       end
   | OpenA p cap, None =>
       match slookup p (s_fs s) with
       | None => (s, OErr EMissing)
-      | Some _ => (mkSW (s_fs s) (Some (mkSH (SLFile p) MAppend cap)), OUnit)
+      | Some _ => (mkSW (s_fs s) (Some (mkSH (SLFile p) MAppend cap [])), OUnit)
       end
   | Merge _ _ _, None => (s, OUnit)       (* merges are specified separately (C09 / C10) *)
   | Inject _ _, None => (s, OUnit)        (* so are associated stores (C09) *)
   | (Create _ _ | CreateMem _ | OpenR _ _ | OpenA _ _ | Merge _ _ _ | Inject _ _), Some _ => (s, OErr EBusy)
   | _, None => (s, OErr ENoHandle)
   | GetA _ _, Some _ => (s, OUnit)
+  | IterNew k, Some h =>
+      (mkSW (s_fs s) (Some (mkSH (sh_loc h) (sh_mode h) (sh_cap h) (@aupd nat nat Nat.eqb k 0 (sh_iters h)))), OUnit)
+  | IterNext k, Some h =>
+      match @alookup nat nat Nat.eqb k (sh_iters h) with
+      | None => (s, OErr ENoHandle)
+      | Some cur =>
+          (* every iterator walks the list with its own cursor, whatever the other iterators do *)
+          match nth_error (s_items s h) cur with
+          | Some (t, _) =>
+              (mkSW (s_fs s) (Some (mkSH (sh_loc h) (sh_mode h) (sh_cap h) (@aupd nat nat Nat.eqb k (S cur) (sh_iters h)))),
+               OItem t)
+          | None => (s, OStop)
+          end
+      end
   | Add t, Some h =>
       match sh_mode h with
       | MRead => (s, OErr ENotWritable)
@@ -848,7 +884,7 @@ Definition spec_step (s : sworld) (o : op) : sworld * out :=
                 else (mkSW (s_fs s)
                            (Some (mkSH (SLMem (items ++ [(t_tag t, t_fid t)]) cap
                                               (match def with Some d => Some d | None => Some (t_sig t, has_id t) end)
-                                              (used + t_size t)) m (sh_cap h))),
+                                              (used + t_size t)) m (sh_cap h) (sh_iters h))),
                       OIdx (length items))
             | SLFile p =>
                 if match sh_cap h with Some cp => cp <? t_size t | None => false end then (s, OErr ETooLarge) else
